@@ -329,6 +329,9 @@ def read_tabular(f, *, sep='\t', outfmt=None, ftype=None, fmt='blast',
                     raise ValueError('Expected strand +, got - in sstrand')
             else:
                 strand = attrs.get('sstrand', '.')
+            if start > stop:
+                # direction unknown (sstrand N/A or single-position query), still span the subject interval
+                start, stop = stop, start
             loc = Location(start-1, stop, strand)
             _fmt = '_' + fmt
             ft = Feature(attrs.get(ftype, ftype), [loc],
